@@ -174,8 +174,10 @@ def compare_analysis(sim, ana, stats=None):
     # ---- constraint_currents: None, the fixed requests, the request the spec picked ----------------------
     reqs = [(None, _as_map(ana["ccAll"]))] + [(list(c["req"]), _as_map(c["ans"])) for c in ana["cc"]]
     reqs.append((list(ana["pick"]["req"]), _as_map(ana["pick"]["ans"])))
-    for req, ans in reqs:
-        for kwargs in ({}, {"return_magnitudes": False}, {"return_magnitudes": True}):
+    for n_req, (req, ans) in enumerate(reqs):
+        forms = [{}, {"return_magnitudes": False}, {"return_magnitudes": True}]
+        forms = forms[n_req % 3:] + forms[:n_req % 3]          # which representation is asked for first varies
+        for kwargs in forms:
             if req is not None:
                 kwargs = dict(kwargs, constraint_ids=list(req))
             out = an.constraint_currents(sim, **kwargs)
@@ -234,8 +236,11 @@ def compare_analysis(sim, ana, stats=None):
                     return _mm("proportion_of_demands_met", "default", m["n"] / n, float(got), sessions=n)
 
     # ---- NEMA current unbalance ---------------------------------------------------------------------------
-    for rec in ana["nema"]:
+    for n_rec, rec in enumerate(ana["nema"]):
         ids, u = list(rec["ids"]), rec["u"]
+        # analysis functions are functions of the recorded trajectory: asking for the same currents in the other
+        # representation just before must not change what the unbalance formula sees
+        an.constraint_currents(sim, return_magnitudes=bool(n_rec % 2 == 0), constraint_ids=list(ids))
         with np.errstate(all="ignore"):
             outs = [np.asarray(an.current_unbalance(sim, ids), dtype=float),
                     np.asarray(an.current_unbalance(sim, ids, unbalance_type="NEMA"), dtype=float)]
